@@ -161,12 +161,19 @@ def run(ctx):
                 continue
             n += 1
             full = None
+            ext_pos = [pos for pos, bbx, t2 in p.calls() if re.search(r"Extend<.*>>::extend$|extend_from_slice$", cname(t2["func"]))]
             if K is not None:
                 for i, blk in enumerate(p.blocks[:-1]):
                     if blk == K[2]:
                         t2 = K[3]
                         truth = p.blocks[i + 1] != (t2["tgts"][t2["vals"].index("0")] if "0" in t2["vals"] else None)
                         full = truth if K[1] in ("Eq", "Ge") else not truth
+                        # the fullness test must look at the length *after* the bytes were appended
+                        v = p.origin_op(t2["discr"], i)
+                        lc = T.find(v, lambda x: T.is_call(x, r"Vec::<T, A>::len$"))
+                        site = lc[3][1] if lc is not None and len(lc) > 3 and isinstance(lc[3], tuple) else None
+                        if not ext_pos or site not in p.blocks or p.blocks.index(site) < ext_pos[-1]:
+                            full = None
             ended = any(cname(t2["func"]) in (ft.path,) or ft.path in prog.reachable_fns([cname(t2["func"])]) for pos, bbx, t2 in p.calls() if "indirect" not in t2["func"] and cname(t2["func"]) in prog.bodies)
             ctx.ob("C04.write-progress", full is False or (full is True and ended), "an Ok path of write leaves a full pending buffer without ending the packet (full=%s, ended=%s)" % (full, ended),
                    fn=fw.path, construct="post-condition", where=fw.where(p.blocks[-1]))
@@ -174,6 +181,15 @@ def run(ctx):
             okr = rv[0] == "agg" and rv[3] == "Ok" and T.is_call(T.peel(rv[4][0]), r"cmp::min$")
             ctx.ob("C04.write-progress", okr, "write must report the number of bytes it actually buffered (returns %s)" % term_str(rv)[:80], fn=fw.path, construct="returned-count", nontrivial=False)
         ctx.floor("C04.write-progress", "Ok paths of write", n, 2)
+        # nobody hands bytes to the framer with a bare `write` (which may accept only part of them and whose count would be dropped)
+        for fn_ in prog.non_test_fns():
+            for bbx, t2 in fn_.calls():
+                f2 = t2["func"]
+                if "indirect" in f2:
+                    continue
+                if f2["path"] == "std::io::Write::write" and "packet::PacketConn<" in (t2.get("arg_tys") or [""])[0]:
+                    ctx.ob("C04.write-progress", False, "%s calls Write::write on the connection directly: bytes beyond the current packet boundary are silently dropped (use write_all)" % fn_.path,
+                           fn=fn_.path, construct="partial-write", where=fn_.where(bbx))
 
         # ---- empty terminator --------------------------------------------------------------------
         wbb = ws[0][1]
